@@ -555,7 +555,7 @@ impl<'de> de::Deserializer<'de> for Value {
             Value::Integer(n) => visitor.visit_i64(n),
             Value::Float(n) => visitor.visit_f64(n),
             Value::String(v) => visitor.visit_string(v),
-            Value::Datetime(v) => visitor.visit_string(v.to_string()),
+            Value::Datetime(v) => visitor.visit_map(DatetimeDeserializer { date: Some(v) }),
             Value::Array(v) => {
                 let len = v.len();
                 let mut deserializer = SeqDeserializer::new(v);
@@ -671,6 +671,36 @@ impl<'de> de::SeqAccess<'de> for SeqDeserializer {
         match self.iter.size_hint() {
             (lower, Some(upper)) if lower == upper => Some(upper),
             _ => None,
+        }
+    }
+}
+
+struct DatetimeDeserializer {
+    date: Option<Datetime>,
+}
+
+impl<'de> de::MapAccess<'de> for DatetimeDeserializer {
+    type Error = crate::de::Error;
+
+    fn next_key_seed<T>(&mut self, seed: T) -> Result<Option<T::Value>, crate::de::Error>
+    where
+        T: de::DeserializeSeed<'de>,
+    {
+        if self.date.is_some() {
+            seed.deserialize(Value::String(datetime::FIELD.to_owned()))
+                .map(Some)
+        } else {
+            Ok(None)
+        }
+    }
+
+    fn next_value_seed<T>(&mut self, seed: T) -> Result<T::Value, crate::de::Error>
+    where
+        T: de::DeserializeSeed<'de>,
+    {
+        match self.date.take() {
+            Some(date) => seed.deserialize(Value::String(date.to_string())),
+            None => Err(de::Error::custom("value is missing")),
         }
     }
 }
